@@ -20,13 +20,13 @@ WC32 = ["-2147483648", "-2147483647", "-65536", "-32769", "-32768", "-257", "-25
 
 def samples(ck):
     r = ck.rng
-    nh = 24 if ck.thorough else 3
+    nh = 32 if ck.thorough else 3
     hs = ["00" * 32, "ff" * 32, "aa" * 32, "55" * 32, "00" * 31 + "01", "80" + "00" * 31, "7f" + "ff" * 31,
           "0123456789abcdef" * 4, "fbefbe" * 10 + "fbef", "00" * 16 + "%032x" % r.getrandbits(128)]
     hs += ["%064x" % r.getrandbits(256) for _ in range(nh)]
     # the last id is the tail used for the one-bit-off accounts of the shard part: keep it random
     rnd = [format(r.getrandbits(64), "064b") for _ in range(6 if ck.thorough else 2)]
-    na = 28 if ck.thorough else 2
+    na = 48 if ck.thorough else 2
     sub = [{"wc": "-1", "hash": "ff" * 32, "b": False, "t": True, "url": False},      # many '/' digits: same-digit replacements
            {"wc": "0", "hash": "fbefbe" * 10 + "fbef", "b": True, "t": False, "url": True}]   # many '-' digits
     for i in range(na):
@@ -158,7 +158,11 @@ def run(ck):
     ck.extra["substitutions_other_digit"] = nother
     ck.extra["substitutions_same_digit_other_alphabet"] = nsame
     for (fn, cl), s in sorted(observations.items()):
-        ck.notes.append("observation (not a verdict): %s accepts a %s text, e.g. %s" % (fn, cl, s))
+        if fn == "tongo.ParseAddress.Bounce":
+            ck.notes.append("observation (not a verdict, outside C17): tongo.ParseAddress reports Bounce=true for a non-bounceable "
+                            "(0x51) address, e.g. %s" % next(v["url"] for v in vecs if v["k"] == "enc" and v.get("url") and not v["bounce"]))
+        else:
+            ck.notes.append("observation (not a verdict): %s accepts a %s text, e.g. %s" % (fn, cl, s))
     ck.sample({"direction": "S->C", "vector": next(v for v in vecs if v["cl"] == "sub:other-digit")})
     ck.sample({"direction": "S->C", "vector": {k: v for k, v in next(x for x in vecs if x["k"] == "enc").items()}})
     # canaries for S->C: corrupt one expectation each; the replay must flag exactly that
